@@ -122,6 +122,43 @@ Proof.
     cbn [negb g_parsing g_sb g_blocks app length Nat.eqb bind snd fst]. reflexivity.
 Qed.
 
+(* the same for either order of the two headers (and whatever the two suffixes are, as long
+   as each is _1 or _2): strand 0 is the section whose header comes first in the file *)
+Definition strand_sfx (s : str) : Prop := s = sfx_1 \/ s = sfx_2.
+
+Lemma good_sfx_any name s : strand_sfx s ->
+  (ends_with sfx_1 (name ++ s) || ends_with sfx_2 (name ++ s)) = true /\ before_last c_us (name ++ s) = name.
+Proof.
+  intros [->| ->]; split; [apply good_sfx1|apply name_sfx1|apply good_sfx2|apply name_sfx2].
+Qed.
+
+Theorem blocks_are_samples_lines_any name sa sb pre l1 l2 post :
+  strand_sfx sa -> strand_sfx sb ->
+  Forall (foreign_header name) pre ->
+  Forall not_header l1 -> Forall not_header l2 ->
+  (post = [] \/ exists h r, post = [h] :: r /\ good_header h) ->
+  parse_blocks name (pre ++ [name ++ sa] :: l1 ++ [name ++ sb] :: l2 ++ post) =
+  bind (blocks_of l1) (fun b1 => bind (blocks_of l2) (fun b2 => Ok [b1; b2])).
+Proof.
+  intros Ha Hb Hpre H1 H2 Hpost. unfold C18_Model.parse_blocks.
+  destruct (good_sfx_any name sa Ha) as [Ga Na]. destruct (good_sfx_any name sb Hb) as [Gb Nb].
+  destruct (run_foreign name pre [] ([name ++ sa] :: l1 ++ [name ++ sb] :: l2 ++ post) Hpre) as [B0 E0].
+  rewrite E0. clear E0.
+  cbn [C18_Model.run]. unfold C18_Model.step at 1. rewrite Ga. cbn [negb g_parsing g_sb g_blocks length Nat.eqb].
+  rewrite Na, str_eqb_refl. cbn [bind snd fst].
+  rewrite (run_lines name l1 [] [] _ H1). unfold blocks_of.
+  destruct (blocks_from l1 []) as [b1|k]; cbn [bind]; [|reflexivity].
+  cbn [C18_Model.run]. unfold C18_Model.step at 1. rewrite Gb.
+  cbn [negb g_parsing g_sb g_blocks app length Nat.eqb].
+  rewrite Nb, str_eqb_refl. cbn [bind snd fst].
+  rewrite (run_lines name l2 [b1] [] _ H2).
+  destruct (blocks_from l2 []) as [b2|k]; cbn [bind]; [|reflexivity].
+  destruct Hpost as [->|[h [r [-> Hg]]]].
+  - reflexivity.
+  - cbn [C18_Model.run]. unfold C18_Model.step. unfold good_header in Hg. rewrite Hg.
+    cbn [negb g_parsing g_sb g_blocks app length Nat.eqb bind snd fst]. reflexivity.
+Qed.
+
 (* what one block per line means: label, chromosome and cM end of the line; start rule *)
 Definition line_block (l : list str) (b : hblock) : Prop :=
   exists t0 t1 rest tl, l = t0 :: t1 :: rest /\ last_opt l = Some tl /\
